@@ -444,6 +444,7 @@ func (g treeGen) decodeInput(typ string) any {
 type pairGen struct {
 	ctx   *core.Ctx
 	xkeys bool // use mapping keys that start with "x-" (recorded finding: taken as extensions in the mapping form)
+	sink  func(attr string, short, long map[string]any) // round 6: when set, pairs go here instead of c03.shortLong
 }
 
 func doc(svc map[string]any, top map[string]any) map[string]any {
@@ -520,6 +521,10 @@ func (g pairGen) kvs(allowNull bool) []kv {
 }
 
 func (g pairGen) emit(attr string, short, long map[string]any) {
+	if g.sink != nil {
+		g.sink(attr, short, long)
+		return
+	}
 	if g.xkeys {
 		if !strings.HasPrefix(attr, "kv:") {
 			return
@@ -1095,12 +1100,12 @@ func runC03(ctx *core.Ctx) {
 	shellStreams(ctx)
 
 	// 6. metamorphic oracle on whole loads: short document vs long document; near-miss documents
-	pg := pairGen{ctx, false}
+	pg := pairGen{ctx: ctx}
 	pg.nearMisses()
 	for i := 0; i < ctx.Pick(1200, 15000); i++ {
 		pg.one(i)
 	}
-	xg := pairGen{ctx, true}
+	xg := pairGen{ctx: ctx, xkeys: true}
 	for i := 0; i < ctx.Pick(60, 600); i++ {
 		xg.one(16 + i%3)
 	}
